@@ -67,6 +67,10 @@ var Pool = []Recipe{
 	r("<</0 7>>", true, false, tx("<<"), tl("0"), ti(7), tx(">>")),
 	r("<</a 7>>", true, false, tx("<<"), tl("a"), ti(7), tx(">>")),
 	r("<</0 1 /1 (s)>>", false, false, tx("<<"), tl("0"), ti(1), tl("1"), psref.TS([]byte("s")), tx(">>")),
+	// the null object (element of a fresh array) as operand and as a value
+	// stored under a key
+	r("null", true, true, ti(1), tx("array"), ti(0), tx("get")),
+	r("<</a null>>", true, false, tx("<<"), tl("a"), ti(1), tx("array"), ti(0), tx("get"), tx(">>")),
 	r("userdict", false, false, tx("userdict")),
 	r("mark", true, false, tx("mark")),
 	r("/add load", false, false, tl("add"), tx("load")),
